@@ -62,6 +62,9 @@ func Generate(t *rapid.T, cfg *Config) *Program {
 	if g.needIdx {
 		sb.WriteString("func idx(i, n int) int {\n\ti %= n\n\tif i < 0 {\n\t\ti += n\n\t}\n\treturn i\n}\n\n")
 	}
+	if g.needIdent {
+		sb.WriteString("func identInt(x int) int { return x }\n\n")
+	}
 	for _, h := range g.newHelpers() {
 		sb.WriteString(h)
 	}
